@@ -1164,8 +1164,15 @@ def rule_softmax_objectives(repo, rep):
                   '%r * E^T (%r, diagonal %r) X; documented %r * E^T (%r, '
                   'diagonal %r) X' % (c, wsym, dg, EW.const(coef).mul(sgn),
                                       want_sym, want_diag))
-  # the same-label mask handed to NCA's objective
+  # the same-label mask handed to NCA's objective: first by interpretation of
+  # NCA.fit on symbolic labels (whatever the spelling), the text reading
+  # below only where that is undecided
   g = repo.get_func('nca.NCA.fit')
+  verdict = _nca_mask_interp(repo, g)
+  if verdict is not None:
+    kind, detail = verdict
+    rep.add(R, 'nca.NCA.fit:mask', kind, site(g), detail)
+    return
   md = [v for (n_, v) in guards.assignments(g.node, 'mask') if v is not None]
   calls = [c for c in astutil.calls_in(g.node)
            if canon(repo.dotted(g.module, c.func) or '') == MINIMIZE]
@@ -1207,6 +1214,127 @@ def rule_softmax_objectives(repo, rep):
                 'DIFFERENT labels are rewarded' % t)
   else:
     rep.unknown(R, 'nca.NCA.fit:mask', site(g), 'mask %s not recognised' % t)
+
+
+def _nca_mask_interp(repo, g):
+  """('derived' | 'refuted', detail) for the mask NCA.fit hands to its
+  objective, or None when the interpretation is undecided"""
+  from ..minterp import Interp, World, Undecided, Lib
+  from .c07b import S, tg
+  seen = []
+
+  class W(World):
+    def attr(self, it, v, attr, node):
+      if v == S('self'):
+        if attr == 'verbose':
+          return False
+        return S('selfattr', attr)
+      if v == S('X') and attr == 'shape':
+        return (S('n'), S('d'))
+      if tg(v) == 'ind' and attr == 'T':
+        return S('indT', v[1])
+      if tg(v) == 'res':
+        return S('resattr', attr)
+      if tg(v) == 'A' and attr == 'shape':
+        return (S('k'), S('d'))
+      return NotImplemented
+
+    def setattr(self, it, obj, attr, value, node):
+      return None if obj == S('self') else NotImplemented
+
+    def subscript(self, it, base, idx, node):
+      full = slice(None, None, None)
+      if base == S('labels') and isinstance(idx, tuple) and len(idx) == 2:
+        if idx == (full, None):
+          return S('lcol')
+        if idx == (None, full):
+          return S('lrow')
+      return NotImplemented
+
+    def compare(self, it, op, a, b, node):
+      pair = {tg(a), tg(b)}
+      if pair == {'lcol', 'lrow'} or (pair == {'lcol', 'sym'} and
+                                       S('labels') in (a, b)):
+        if isinstance(op, ast.Eq):
+          return S('mask', 'same')
+        if isinstance(op, ast.NotEq):
+          return S('mask', 'diff')
+      for x, y in ((a, b), (b, a)):
+        if tg(x) == 'gram' and y == 0 and isinstance(op, (ast.Gt, ast.NotEq)):
+          return S('mask', 'gram-' + x[1])
+      return NotImplemented
+
+    def unary(self, it, op, v, node):
+      if isinstance(op, ast.Invert) and tg(v) == 'mask' and \
+              v[1] in ('same', 'diff'):
+        return S('mask', 'diff' if v[1] == 'same' else 'same')
+      return NotImplemented
+
+    def call(self, it, d, recv, args, kwargs, node):
+      short = d.rsplit('.', 1)[-1]
+      if d.startswith('.'):
+        if recv == S('self') and d == '._prepare_inputs':
+          return (S('X'), S('labels'))
+        if d == '.reshape' and recv == S('labels') and list(args) in (
+                [-1, 1], [(-1, 1)]):
+          return S('lcol')
+        if d == '.reshape' and recv == S('labels') and list(args) in (
+                [1, -1], [(1, -1)]):
+          return S('lrow')
+        if d == '.fit_transform' and tg(recv) == 'enc' and args and \
+                args[0] == S('labels'):
+          return S('ind', recv[1])
+        if d == '.dot' and tg(recv) == 'ind' and args and \
+                args[0] == S('indT', recv[1]):
+          return S('gram', recv[1])
+        if d in ('.ravel', '.reshape', '.copy') and tg(recv) in ('A',
+                                                                 'resattr'):
+          return recv
+        if d == '.astype' and tg(recv) == 'mask':
+          return recv
+        return NotImplemented
+      if short == '_check_n_components':
+        return S('k')
+      if short == '_initialize_components':
+        return S('A')
+      if short == 'time':
+        return 0
+      if short in ('LabelBinarizer',):
+        return S('enc', 'LabelBinarizer')
+      if d == 'numpy.equal.outer' and list(args) == [S('labels'),
+                                                     S('labels')]:
+        return S('mask', 'same')
+      if short == 'minimize':
+        a_ = kwargs.get('args', args[2] if len(args) > 2 else None)
+        if isinstance(a_, tuple) and len(a_) >= 2:
+          seen.append(a_[1])
+        return S('res')
+      if d in ('print', 'builtins.print') or short == 'flush':
+        return None
+      if short == 'dict' and not args:
+        return dict(kwargs)
+      return NotImplemented
+  try:
+    it = Interp(repo, g, W())
+    env = dict((p_, S('arg', p_)) for p_ in g.params())
+    env[g.params()[0]] = S('self')
+    it.run(env)
+  except Exception:
+    return None
+  if not seen or tg(seen[0]) != 'mask':
+    return None
+  k = seen[0][1]
+  if k == 'same':
+    return 'derived', ''
+  if k == 'diff':
+    return 'refuted', 'the mask is true for pairs with DIFFERENT labels: ' \
+        'they are rewarded'
+  if k == 'gram-LabelBinarizer':
+    return 'refuted', 'the mask is (E E^T > 0) with E = LabelBinarizer()' \
+        '.fit_transform(labels): for exactly two classes LabelBinarizer ' \
+        'returns ONE 0/1 column, so two points of the first class have ' \
+        'inner product 0 and are not marked as the same class'
+  return None
 
 
 def rule_zero_iterations(repo, rep):
